@@ -418,7 +418,9 @@ class Interp:
             callee.vars[proc.name] = default_value(proc.name[-1])
         row = self.rows.get(call_sid)
         self.call_rows.append(row)
+        saved_sid = getattr(self, "cur_sid", None)
         self.run(callee, proc.body, proc.labels)
+        self.cur_sid = saved_sid     # back in the calling statement
         self.call_rows.pop()
         self.depth -= 1
         # write back left to right
